@@ -382,7 +382,7 @@ UNITS['U25k'] = dict(
     assumptions=['precondition: a nullable result has at least one nullable operand (what the ASTBuilder type inference `null=lhs,rhs` produces; the proc-macro is not under contract)',
                  'QueryPlan: #[derive(ASTBuilder, Debug)] and the #[output]/#[internal]/#[nohash] field attributes are stripped (R1); the enum variants and fields are the real ones',
                  'BufferProvider.shared_buffers (HashMap cache) dropped (R10); phantom payload types (MergeOp, Premerge, ValRows, RawVal, Val, Aggregator) are inert stand-ins',
-                 'the semantics of CombineNullMaps / AssembleNullable / PropagateNullability / GetNullMap nodes is that of their operators (U01: combine_null_maps kernels)',
+                 'the semantics of CombineNullMaps / AssembleNullable / PropagateNullability / GetNullMap nodes is that of their operators (CombineNullMaps: U40k; the others only alias scratchpad buffers)',
                  'symbolic operand types made CBMC exceed 64 GB (a Vec returned from either branch of combine_nulls is reallocated by push); the planner fns read a type only through is_nullable() / non_nullable(), which tag_tables covers completely'],
     not_covered=['the ASTBuilder-generated type inference and the executor wiring in query_plan::prepare'])
 
@@ -490,6 +490,14 @@ UNITS['U39n'] = dict(
     assumptions=['Cap\'n Proto and HashMap iteration are outside both verifiers; the sub-crate is compiled natively and run over a stated pool (bounded stand-in, reported under coverage.bounded)'],
     not_covered=['buffers outside the pool', 'the envelope around the payload (U14v)', 'partition files and the catalogue'])
 
+UNITS['U40k'] = dict(
+    kind='kani', crate='kani/U40', timeout_s=600, mem_gb=8,
+    title='BOUNDED (bitmaps of <= 3 bytes, any contents): combine_null_maps.rs CombineNullMaps::execute loop (slice) - result bitmap = AND of the operand bitmaps',
+    harnesses=[dict(name='proofs::result_present_iff_both_present', bounded='bitmaps of <= 3 bytes (24 rows), any contents and lengths, unwind 5', unwind=5, clause='out[k] == lhs[k] & rhs[k] up to the shortest of the three lengths; other bytes untouched; length kept', fn='CombineNullMaps::execute[slice]'),
+               dict(name='proofs::vx_canary', expect_fail=True)],
+    assumptions=['R6: scratchpad bindings lifted to parameters'],
+    not_covered=['CombineNullMaps::init (allocation of the output bitmap)', 'AssembleNullable / PropagateNullability / GetNullMap / MakeNullable: they only alias buffers in the scratchpad (no kernel)'])
+
 UNITS['U24k'] = dict(
     kind='kani', crate='kani/U24', timeout_s=600, mem_gb=12, jobs=2,
     title='BOUNDED (names <= 2 ASCII characters): storage.rs sanitize_table_name - cleaning steps after lower-casing (slice) and the verbatim-or-digest decision (expression slice)',
@@ -552,7 +560,7 @@ PROPS = {
                 level_note='the std sorts themselves are assumed (A-std-sort); the top-n driver and the planner choice between sort and top-n (and which sorts it requests as stable) are not covered',
                 technique='contract-based deductive verification (Verus + Kani) of extracted functions',
                 assumptions=[], not_covered=['bodies of slice::sort_by / sort_unstable_by', 'TopN::execute/finalize', 'NormalFormQuery::run sort requests']),
-    'C03': dict(level='proof', units=['U01', 'U05k', 'U06k', 'U07k', 'U08v', 'U19', 'U25k', 'U34n', 'U36'],
+    'C03': dict(level='proof', units=['U01', 'U05k', 'U06k', 'U07k', 'U08v', 'U19', 'U25k', 'U34n', 'U36', 'U40k'],
                 level_text='complete Kani proofs of comparison kernels and constant translation; Verus proof of null bitmap primitives and filter kernels; Kani proof that the planner rewrite makes a binary operator NULL exactly where an operand is NULL; bounded Kani check of string comparisons on dictionary indices',
                 level_note='compile_expr glue other than the NULL rewrite and dictionaries larger than 3 entries are not covered; LIKE is covered only by a bounded native enumeration of its pattern translation (patterns and subjects of <= 4 characters), not by a proof',
                 technique='contract-based deductive verification (Kani complete harnesses + Verus) of extracted / path-included real code',
